@@ -229,8 +229,24 @@ def covariance_class(rng, n):
 
 def adjacency_class(rng, n):
     classes = ["er_graph", "er_graph", "weighted", "complex", "complete", "with_selfloops", "invalid_nonsymmetric",
-               "invalid_nonsquare"]
+               "invalid_nonsquare", "int_dtype_selfloops", "int_dtype_weights"]
     c = str(rng.choice(classes))
+    if c == "int_dtype_selfloops":
+        # a hand-typed 0/1 adjacency matrix with self-loops: integer dtype (arithmetic on it must not stay integer)
+        A = (rng.random((n, n)) < 0.6).astype(int)
+        A = np.triu(A, 0)
+        A = A + A.T - np.diag(np.diag(A))
+        A[0, 0] = 1
+        A[0, n - 1] = A[n - 1, 0] = 1
+        return c, A.astype(int), True
+    if c == "int_dtype_weights":
+        A = rng.integers(-2, 4, (n, n))
+        A = np.triu(A, 0)
+        A = A + A.T - np.diag(np.diag(A))
+        if not A.any():
+            A[0, n - 1] = A[n - 1, 0] = 1
+        A[n - 1, n - 1] += 1
+        return c, A.astype(int), True
     if c == "er_graph":
         while True:
             A = (rng.random((n, n)) < 0.6).astype(float)
